@@ -276,6 +276,77 @@ theorem wire_prefixes (v : Val) :
   ⟨(wire_stable _ v).1, (wire_stable _ v).1, (wire_stable _ v).1, (wire_stable _ v).1, (wire_stable _ v).1,
    (wire_stable _ v).1, (wire_stable _ v).1, (wire_stable _ v).1⟩
 
+/-! ## the schemas are the source's types: variant names, payload shapes, field counts and names -/
+
+section Shapes
+open SafeNet.Gen.WireShape
+
+/-- **schemas_tied**: every enum schema has exactly the variants of the Rust enum (by NAME — the wire representation of
+a variant in both rmp_serde and the CBOR codec), each with the payload shape serde derives (unit / newtype / n fields),
+and every struct schema has one position per field; all read from the current source by `rs2lean`. -/
+theorem schemas_tied :
+    enumTied enum_NetworkAddress networkAddress = true ∧ enumTied enum_RecordType recordType = true ∧
+    enumTied enum_Request request = true ∧ enumTied enum_Response response = true ∧
+    enumTied enum_Cmd cmd = true ∧ enumTied enum_Query query = true ∧
+    enumTied enum_QueryResponse queryResponse = true ∧ enumTied enum_CmdResponse cmdResponse = true ∧
+    enumTied enum_Error protocolError = true ∧
+    structTied struct_RecordHeader recordHeader = true ∧ structTied struct_PaymentQuote paymentQuote = true ∧
+    structTied struct_ProofOfPayment proofOfPayment = true ∧ structTied struct_QuotingMetrics quotingMetrics = true ∧
+    structTied struct_Scratchpad scratchpad = true ∧ structTied struct_Transaction transaction = true ∧
+    structTied struct_RegisterAddress registerAddress = true ∧ structTied struct_ScratchpadAddress scratchpadAddress = true := by
+  refine ⟨?_, ?_, ?_, ?_, ?_, ?_, ?_, ?_, ?_, ?_, ?_, ?_, ?_, ?_, ?_, ?_, ?_⟩ <;> decide
+
+/-- **wire_names_fixed**: the names that travel on the wire are the ones nodes use today — variant names of the address
+and message enums (any declaration order), field names of the struct variants and of the structs that travel inside
+messages (the CBOR codec writes struct fields by name), and the field ORDER of every struct (MessagePack records are
+positional). -/
+theorem wire_names_fixed :
+    sameVariants enum_NetworkAddress [("PeerId", .newtype), ("ChunkAddress", .newtype), ("TransactionAddress", .newtype),
+      ("RegisterAddress", .newtype), ("RecordKey", .newtype), ("ScratchpadAddress", .newtype)] = true ∧
+    sameVariants enum_RecordType [("Chunk", .unit), ("Scratchpad", .unit), ("NonChunk", .newtype)] = true ∧
+    sameVariants enum_Request [("Cmd", .newtype), ("Query", .newtype)] = true ∧
+    sameVariants enum_Response [("Cmd", .newtype), ("Query", .newtype)] = true ∧
+    sameVariants enum_Cmd [("Replicate", .fields ["holder", "keys"]),
+      ("PeerConsideredAsBad", .fields ["detected_by", "bad_peer", "bad_behaviour"])] = true ∧
+    sameVariants enum_Query [("GetStoreQuote", .fields ["key", "nonce", "difficulty"]),
+      ("GetReplicatedRecord", .fields ["requester", "key"]), ("GetRegisterRecord", .fields ["requester", "key"]),
+      ("GetChunkExistenceProof", .fields ["key", "nonce", "difficulty"]), ("CheckNodeInProblem", .newtype),
+      ("GetClosestPeers", .fields ["key", "num_of_peers", "range", "sign_result"])] = true ∧
+    sameVariants enum_QueryResponse [("GetStoreQuote", .fields ["quote", "peer_address", "storage_proofs"]),
+      ("CheckNodeInProblem", .fields ["reporter_address", "target_address", "is_in_trouble"]),
+      ("GetReplicatedRecord", .newtype), ("GetRegisterRecord", .newtype), ("GetChunkExistenceProof", .newtype),
+      ("GetClosestPeers", .fields ["target", "peers", "signature"])] = true ∧
+    sameVariants enum_CmdResponse [("Replicate", .newtype), ("PeerConsideredAsBad", .newtype)] = true ∧
+    struct_PaymentQuote = ["content", "timestamp", "quoting_metrics", "rewards_address", "pub_key", "signature"] ∧
+    struct_QuotingMetrics = ["close_records_stored", "max_records", "received_payment_count", "live_time",
+      "network_density", "network_size"] ∧
+    struct_RegisterAddress = ["meta", "owner"] ∧ struct_ScratchpadAddress = ["owner"] ∧
+    struct_Scratchpad = ["address", "data_encoding", "encrypted_data", "counter", "signature"] ∧
+    struct_Transaction = ["owner", "parents", "content", "outputs", "signature"] ∧
+    struct_ProofOfPayment = ["peer_quotes"] ∧ struct_RecordHeader = ["kind"] := by
+  refine ⟨?_, ?_, ?_, ?_, ?_, ?_, ?_, ?_, ?_, ?_, ?_, ?_, ?_, ?_, ?_, ?_⟩ <;> decide
+
+end Shapes
+
+/-- **variant_wire_form**: for EVERY payload, a variant with payload is the one-entry map `{name: payload}` and a unit
+variant is the bare name string — the enum analogue of `wire_stable`. -/
+theorem variant_wire_form (name : List Nat) (t : Tree) :
+    encode (toVal (.nvar name t)) = 0x81 :: (encode (.str name) ++ encode (toVal t)) ∧
+    encode (toVal (.uvar name)) = encode (.str name) := by
+  constructor
+  · simp [toVal, encode, encodePairs, encodeHead]
+  · rfl
+
+/-- two variants with different (well-formed) names never share an encoding, whatever their payloads -/
+theorem variant_names_separate (n n' : List Nat) (t t' : Tree) (hn : nameOk n = true) (hn' : nameOk n' = true)
+    (ht : treeWf t = true) (ht' : treeWf t' = true)
+    (h : encode (toVal (.nvar n t)) = encode (toVal (.nvar n' t'))) : n = n' ∧ toVal t = toVal t' := by
+  have hw : treeWf (.nvar n t) = true := by simp [treeWf, hn, ht]
+  have hw' : treeWf (.nvar n' t') = true := by simp [treeWf, hn', ht']
+  have e := SafeNet.MsgPack.encode_injective _ _ (toVal_wf _ hw) (toVal_wf _ hw') h
+  simp only [toVal, Val.map.injEq, List.cons.injEq, Prod.mk.injEq, Val.str.injEq, and_true] at e
+  exact e
+
 /-! ## non-vacuity -/
 
 example : isChunk [0x91, 1, 0xc4] = some true := by decide
@@ -326,5 +397,9 @@ end SafeNet.Props.C12
 #print axioms SafeNet.Props.C12.is_chunk_unknown_or_short_errs
 #print axioms SafeNet.Props.C12.from_record_is_try_deserialize_window
 #print axioms SafeNet.Props.C12.try_deserialize_any_width
+#print axioms SafeNet.Props.C12.schemas_tied
+#print axioms SafeNet.Props.C12.wire_names_fixed
+#print axioms SafeNet.Props.C12.variant_wire_form
+#print axioms SafeNet.Props.C12.variant_names_separate
 #print axioms SafeNet.Props.C12.wire_stable
 #print axioms SafeNet.Props.C12.wire_prefixes
